@@ -1,5 +1,7 @@
 """C13 — fixed-width text fields (BTSString.write / BTSString.read) vs Tdf.strWrite / Tdf.strRead."""
 import itertools
+
+import numpy as np
 import json
 
 import common
@@ -23,6 +25,10 @@ def real_write(w, cpl):
         return ("err", "notEncodable" if isinstance(e, UnicodeError) else "tooLong")
     except Exception as e:
         return ("exc", type(e).__name__)
+
+
+class StrSub(str):
+    pass
 
 
 def real_read(w, bs):
@@ -117,6 +123,7 @@ def run(ctx):
                 s[rng.randrange(ln)] = 0                          # embedded NUL
         cases.append((w, s))
     replies = common.drv_batch([[Sym("str.write"), w, s] for w, s in cases])
+    from basictdf.tdfTypes import BTSString
     for (w, s), m in zip(cases, replies):
         r = real_write(w, s)
         tag = "write-ok" if r[0] == "ok" else "write-" + str(r[1])
@@ -128,6 +135,23 @@ def run(ctx):
         bad = oracle_write(w, s, r)
         if bad:
             ctx.fail(f"BTSString.write({w}, {s[:40]}): {bad}", rep, ident=f"write w={w} len={len(s)}")
+        # the same text held as another kind of str object (a str subclass; numpy's str_, which is what indexing an array of labels
+        # gives): a string is a string
+        if not bad and len(s) >= 2 and rng.random() < 0.25 and all(c < 0xD800 or c > 0xDFFF for c in s):
+            text = "".join(chr(c) for c in s)
+            variants = [("str subclass", StrSub(text))]
+            if not text.endswith("\0"):                 # (numpy's str_ drops trailing NULs: not the same text any more)
+                variants.append(("numpy.str_", np.str_(text)))
+            for name, obj in variants:
+                try:
+                    rv = ("ok", BTSString.write(w, obj))
+                except ValueError as e:
+                    rv = ("err", "notEncodable" if isinstance(e, UnicodeError) else "tooLong")
+                except Exception as e:
+                    rv = ("exc", type(e).__name__)
+                if rv != r:
+                    ctx.fail(f"BTSString.write({w}, <{name} of {s[:30]}>) behaves differently from the plain str: {rv[0]} {rv[1] if rv[0] != 'ok' else rv[1].hex()[:60]} "
+                             f"instead of {r[0]} {r[1] if r[0] != 'ok' else r[1].hex()[:60]}", dict(rep, held_as=name), ident=f"write {name}")
 
     # 3. read side: arbitrary byte strings of the field width
     rcases = []
